@@ -132,7 +132,7 @@ func equalWeights(n int) []uint64 {
 }
 
 // paramWeights: the committee weights of a run: equal weights unless the configuration sets "weights"
-// (1: [3,1,1,1]  2: [1,2,3,4]  3: [2,2,1,1]  4: [4,3,2,1]; f and Q differ: W=6,f=1,Q=5 / W=10,f=3,Q=7 / W=6,f=1,Q=5).
+// (1: [3,1,1,1]  2: [1,2,3,4]  3: [2,2,1,1]  4: [4,3,2,1]  5: [3,1,0,4]; f and Q differ: W=6,f=1,Q=5 / W=10,f=3,Q=7 / W=6,f=1,Q=5).
 func paramWeights() []uint64 {
 	switch env.ParamOr("weights", 0) {
 	case 1:
@@ -143,6 +143,8 @@ func paramWeights() []uint64 {
 		return []uint64{2, 2, 1, 1}
 	case 4:
 		return []uint64{4, 3, 2, 1}
+	case 5:
+		return []uint64{3, 1, 0, 4} // a zero-weight member (W=8, f=2, Q=6)
 	}
 	return equalWeights(4)
 }
